@@ -18,6 +18,8 @@ def _impl(a):
 def _judge(a, out):
     """Spec (C17) on the observed states: running <=> all configured ports held; not running => none held; after a failed start the
     held set is what it was; after stop nothing is delivered."""
+    if "HARNESS-TIMEOUT" in out:
+        return [("c06gate -", out)]     # the real object never came back: judged as a failure of the property, not of the machine
     lines = []
     prev_held = "0" * a["ports"]
     prev_run = "0"
@@ -60,6 +62,19 @@ def gen(rng):
     return {"ports": n, "acts": acts}
 
 
+def gen_bad(rng):
+    """one configured port (not the first) can never be bound: every start must fail AFTER having bound the ports before it, and
+    leave none of them held"""
+    n = rng.randrange(2, 5)
+    bad = rng.randrange(1, n)
+    acts = [f"bad:{bad}"]
+    for _ in range(rng.randrange(2, 12)):
+        k = rng.random()
+        i = rng.randrange(n)
+        acts.append("start" if k < 0.35 else "stop" if k < 0.5 else f"send:{i}" if k < 0.8 else "enter" if k < 0.9 else "leave")
+    return {"ports": n, "acts": acts}
+
+
 FIXED = [{"ports": 3, "acts": ["occ:2", "start", "send:0", "send:1", "rel:2", "start", "send:0", "send:2", "stop", "send:0", "start", "start", "send:1", "stop", "stop"]},
          {"ports": 1, "acts": ["stop", "stop", "start", "send:0", "stop", "send:0", "start", "send:0"]},
          {"ports": 2, "acts": ["enter", "send:1", "leave", "send:1", "enter", "enter", "send:0", "leave"]},
@@ -69,6 +84,8 @@ FIXED = [{"ports": 3, "acts": ["occ:2", "start", "send:0", "send:1", "rel:2", "s
 def streams(ctx):
     rng = ctx.rng
     ctx.run_cases(LIFE, "fixed-scenarios", FIXED, exhaustive=True)
+    ctx.run_cases(LIFE, "a-configured-port-that-cannot-be-bound", [{"ports": 3, "acts": ["bad:2", "start", "send:0", "send:1", "stop", "start", "send:0"]}]
+                  + [gen_bad(rng) for _ in range(ctx.n(25, 400))], exhaustive=False, sample_every=9)
     ctx.run_cases(LIFE, "random-action-sequences", [gen(rng) for _ in range(ctx.n(110, 2500))], exhaustive=False, sample_every=50)
 
 
